@@ -115,6 +115,8 @@ def _unpre(spec):
     """the raw candidate behind a pre-converted one (`["pre", type, spec]` = an instance of the field type made from spec)"""
     while isinstance(spec, list) and spec and spec[0] == "pre":
         spec = spec[2]
+    if isinstance(spec, list) and spec and spec[0] == "dtvia":
+        return ["dt", list(spec[2]), "naive", 0]       # the same wall clock as a plain naive datetime
     if isinstance(spec, list) and spec and spec[0] == "prelist":
         return ["list", [_unpre(x) for x in spec[2]]]
     if isinstance(spec, list) and spec and spec[0] in ("list", "tuple"):
@@ -142,6 +144,26 @@ def _build(spec):
             return fieldtype(spec[1])(raw)
         except Exception:
             return raw
+    if k == "dtvia":
+        # an instance of the datetime FIELD TYPE obtained through another door than `datetime(value)`: components with
+        # an explicit tzinfo=None, the inherited alternative constructors, or `.replace(tzinfo=None)` of a value
+        from flow.record import fieldtypes
+        y, mo, d, h, mi, sec, us = spec[2]
+        how = spec[1]
+        FT = fieldtypes.datetime
+        if how == "kw_none":
+            return FT(y, mo, d, h, mi, sec, us, tzinfo=None)
+        if how == "pos_none":
+            return FT(y, mo, d, h, mi, sec, us, None)
+        if how == "combine":
+            return FT.combine(_dtm.date(y, mo, d), _dtm.time(h, mi, sec, us))
+        if how == "fromisoformat":
+            return FT.fromisoformat(_dtm.datetime(y, mo, d, h, mi, sec, us).isoformat())
+        if how == "strptime":
+            return FT.strptime("%04d-%02d-%02d %02d:%02d:%02d.%06d" % (y, mo, d, h, mi, sec, us), "%Y-%m-%d %H:%M:%S.%f")
+        if how == "replace_naive":
+            return FT(y, mo, d, h, mi, sec, us).replace(tzinfo=None)
+        raise ValueError(how)
     if k == "bytearray":
         return bytearray(bytes.fromhex(spec[1]))
     if k == "pathobj":
@@ -154,6 +176,19 @@ def _build(spec):
     if k in ("path", "cmd"):
         return dec_str(spec[2])          # as text: the field type itself has to build the object
     return V.build(spec)
+
+
+DTVIA = ["kw_none", "pos_none", "combine", "fromisoformat", "strptime", "replace_naive"]
+
+
+def _has_dtvia(spec, how=None):
+    if isinstance(spec, dict):
+        return any(_has_dtvia(x, how) for x in spec.values())
+    if isinstance(spec, list):
+        if spec and spec[0] == "dtvia":
+            return how is None or spec[1] == how
+        return any(_has_dtvia(x, how) for x in spec)
+    return False
 
 
 def _is_record_candidate(spec):
@@ -191,6 +226,13 @@ def _pool_for(r, t):
                     pool.append(["prelist", ft, vals])
     if not t.endswith("[]") and base not in ("record", "dynamic", "stringlist", "dictlist", "net.ipv4.Subnet"):
         pool += [["pre", base, V.gen_value(r, base, none_chance=0)] for _ in range(2)]
+    if base == "datetime":
+        comps = r.choice([[2020, 1, 2, 3, 4, 5, 6], [1999, 12, 31, 23, 59, 59, 999999], [2024, 2, 29, 0, 0, 0, 0]])
+        for how in DTVIA:
+            if t.endswith("[]"):
+                pool.append(["list", [["dtvia", how, comps], ["dt", comps, "naive", 0]]])
+            else:
+                pool.append(["dtvia", how, comps])
     if base == "digest":
         pool = [p for p in pool if not (p[0] == "dict" and any(dec_str(kk[1]) in ("md5", "sha1", "sha256") for kk, _ in p[1] if kk[0] == "str"))]
     if base == "bytes":
@@ -207,7 +249,7 @@ def gen_cases(rng, tier):
     for t in SCALARS + [x + "[]" for x in LISTABLE]:
         r = rng.fork("pool-" + t)
         for spec in _pool_for(r, t):
-            if spec[0] == "pre":       # T(instance of T) is not the isinstance shortcut of __setattr__: histories only
+            if spec[0] in ("pre", "dtvia"):   # T(instance of T) is not the isinstance shortcut of __setattr__: histories only
                 continue
             cases.append({"kind": "coerce", "type": t, "value": spec})
     # --- fixed histories
@@ -218,6 +260,15 @@ def gen_cases(rng, tier):
                   "args": [B(b"\xff"), B(b"x"), ["dt", [2020, 1, 2, 3, 4, 5, 6], "naive", 0]],
                   "ops": [["assign", "s", S("\ud800")], ["assign", "s", S("ok")], ["assign", "b", S("text")],
                           ["replace", [["s", B(b"caf\xe9")], ["t", S("2021-01-01T00:00:00")]]], ["replace", [["nope", I(1)]]]]})
+    # the datetime field type through its other doors (explicit tzinfo=None, inherited alternative constructors)
+    c7 = [2020, 1, 2, 3, 4, 5, 6]
+    for how in DTVIA:
+        if how == "replace_naive":
+            continue             # the recorded finding; its witness runs from known_findings.json
+        cases.append({"kind": "seq", "fields": [["datetime", "a"], ["datetime[]", "l"]],
+                      "args": [["dtvia", how, c7], ["list", [["dtvia", how, c7]]]],
+                      "ops": [["assign", "a", ["dtvia", how, [1999, 12, 31, 23, 59, 59, 999999]]],
+                              ["replace", [["a", ["dtvia", how, c7]], ["l", ["list", [["dt", c7, "naive", 0], ["dtvia", how, c7]]]]]]]})
     # --- random histories
     r = rng.fork("seq")
     for _ in range(n):
@@ -788,6 +839,8 @@ def _braw(spec):
 
 def model_op(case, obs):
     toks = Toks()
+    if _has_dtvia(json.loads(json.dumps(case)), "replace_naive"):
+        return None      # a naive INSTANCE of the field type (recorded finding): the model only knows raw input
     if case["kind"] == "coerce":
         return {"op": "c05_coerce", "type": case["type"], "inp": to_inp(_braw(case["value"]), toks)}
     return {"op": "c05_seq", "types": [[enc_str(fn), t] for t, fn in case["fields"]],
@@ -904,7 +957,12 @@ def _m_subnet(case, obs, failure):
     return any(t.startswith("net.ipv4.Subnet") for t in types)
 
 
-MATCHERS = {"lone_surrogate_text": _m_surrogate, "ipv4_address_unchecked_int": _m_ipv4_int, "ipv4_subnet_no_pack": _m_subnet}
+def _m_naive_instance(case, obs, failure):
+    return "datetime field holds a naive datetime" in (failure or "") and _has_dtvia(json.loads(json.dumps(case)), "replace_naive")
+
+
+MATCHERS = {"lone_surrogate_text": _m_surrogate, "ipv4_address_unchecked_int": _m_ipv4_int, "ipv4_subnet_no_pack": _m_subnet,
+            "naive_instance_of_datetime_fieldtype": _m_naive_instance}
 
 
 def shrink(case):
